@@ -909,6 +909,27 @@ def module_new(ctx):
         fld = lambda e, n: strip(e)[0] == 'field' and strip(e)[2] == n and any(is_call(y, 'Iterator::next') for y in walk(e))
         lit_ok = val[0] == 'agg' and val[1].endswith('types::Backend') and fld(dict(val[2])['prologue'], 'prologue') and fld(dict(val[2])['epilogue'], 'epilogue')
         okb = bool(L) and sty == "std::slice::Iter<'_, grammar::Backend>" and not cycle_without(f, L[1], L[0], {c['block']}) and key_ok and lit_ok and strip(strip(src)[2][0])[0] == 'arg'
+    if not pushes:
+        # the same grouping as a fold: `backends.iter().fold(HashMap::new(), |mut acc, b| { acc.entry(b.name..).or_default().push(Backend{..}); acc })`
+        be = strip(expand(f, m['backends']))
+        if is_call(be, 'Iterator::fold') and len(be[2]) == 3 and strip(be[2][2])[0] == 'closure' and strip(be[2][2])[1] in P.fns:
+            g = P.fns[strip(be[2][2])[1]]
+            gp = [c for c in g.calls(lambda r: r['path'] and r['path'].endswith('Vec::<T, A>::push'))]
+            src_ = strip(be[2][0])
+            unad = is_call(src_, 'slice::<impl [T]>::iter') and strip(src_[2][0])[0] == 'arg'
+            init_ = strip(be[2][1])[0] == 'call' and re.search(r'HashMap(::<.*>)?::(new|default|with_capacity)$', strip(be[2][1])[1]) is not None
+            if len(gp) == 1 and unad and init_ and not g.loops():
+                tgt = strip(expand(g, g.expr_of_operand(gp[0]['term']['args'][0])))
+                val = strip(expand(g, g.expr_of_operand(gp[0]['term']['args'][1])))
+                det = 'fold: ' + show(val)[:140]
+                ent = [x for x in walk(tgt) if isinstance(x, tuple) and x[0] == 'call' and re.search(MAPM('entry'), x[1])]
+                acc_ok = bool(ent) and strip(ent[0][2][0])[0] == 'arg' and strip(ent[0][2][0])[1] == 2
+                key_ok = bool(ent) and any(isinstance(y, tuple) and y[0] == 'field' and y[2] == 'name' and strip(y[1])[0] == 'arg' and strip(y[1])[1] == 3 for y in walk(ent[0][2][1]))
+                fld2 = lambda e, n: any(isinstance(y, tuple) and y[0] == 'field' and y[2] == n and strip(y[1])[0] == 'arg' and strip(y[1])[1] == 3 for y in walk(e)) and not any(
+                    isinstance(y, tuple) and y[0] == 'field' and y[2] in ('prologue', 'epilogue') and y[2] != n for y in walk(e))
+                lit_ok = val[0] == 'agg' and val[1].endswith('types::Backend') and fld2(dict(val[2])['prologue'], 'prologue') and fld2(dict(val[2])['epilogue'], 'epilogue')
+                ret_ok = all(strip(x['expr'])[0] == 'arg' and strip(x['expr'])[1] == 2 for x in g.exits()) and all(g.dominates(gp[0]['block'], x['block']) for x in g.exits())
+                okb = bool(acc_ok and key_ok and lit_ok and ret_ok)
     ctx.ob(['C14'], 'R-ITER', 'MN|backends-grouped-in-order', okb,
            'every backend block is appended, in source order, to the list of its own backend name, prologue as prologue and epilogue as epilogue: %s' % det, where)
     # impl blocks: stored exactly as parsed (no attribute or function is added, dropped or rewritten on the way to function::build)
